@@ -359,24 +359,72 @@ theorem EvolvesG.trans {env : Env ν} {adds : Bool} {G : Bool → Option Nat →
 theorem addGene_evolves (env : Env ν) (g : Genome ν) (x : Gene ν) : Evolves env true g (addGene g x).1 := by
   unfold addGene
   split
-  · exact Evolves.refl env g
-  · rename_i hc
+  · rename_i og hf
+    split
+    · rename_i hal
+      refine ⟨rfl, rfl, rfl, rfl, rfl, [], by simp, by simp, ?_⟩
+      intro hc n y hy
+      rcases hc with h | h
+      · cases h
+      · rw [hal] at h; cases h
+    · -- refused: one unapproved entry, nothing else
+      refine ⟨rfl, rfl, rfl, rfl, rfl, [⟨x.name, og.value, x.value, .readd, false⟩], rfl, ?_, ?_⟩
+      · intro m hm hap; simp only [List.mem_singleton] at hm; subst hm; cases hap
+      · intro _ n y hy
+        have hl : lastNew [(⟨x.name, og.value, x.value, .readd, false⟩ : Mut ν)] n = none := by
+          simp [lastNew, lastApproved]
+        rw [hl]; exact hy
+  · rename_i hf
     refine ⟨rfl, rfl, rfl, rfl, rfl, [], by simp, by simp, ?_⟩
     intro hal n y hy
-    have hal : g.allow = false := by rcases hal with h | h; cases h; exact h
-    simp only [hal, Bool.not_false, Bool.and_true, Bool.not_eq_true, Option.isSome_eq_false_iff,
-      Option.isNone_iff_eq_none] at hc
     have hne : n ≠ x.name := by
-      intro h; subst h; rw [hc] at hy; cases hy
+      intro h; subst h; rw [hf] at hy; cases hy
     simp only [lastNew_nil, Option.getD_none]
     rw [findGene_putGene_other _ _ hne]; exact hy
 
-theorem addGene_refused {g : Genome ν} {x : Gene ν} (hal : g.allow = false) (hx : (findGene g.genes x.name).isSome) :
-    addGene g x = (g, false) := by
+theorem addGene_refused {g : Genome ν} {x : Gene ν} {og : Gene ν} (hal : g.allow = false)
+    (hx : findGene g.genes x.name = some og) :
+    addGene g x = (refuseMut g og x.name x.value .readd, false) := by
   unfold addGene; simp [hal, hx]
 
-theorem addGene_log (g : Genome ν) (x : Gene ν) : (addGene g x).1.log = g.log := by
-  unfold addGene; split <;> rfl
+/-- a refused re-add changes nothing but the log -/
+theorem addGene_refused_genes {g : Genome ν} {x : Gene ν} (hal : g.allow = false)
+    (hx : (findGene g.genes x.name).isSome) : (addGene g x).1.genes = g.genes ∧ (addGene g x).2 = false := by
+  obtain ⟨og, hf⟩ := Option.isSome_iff_exists.mp hx
+  rw [addGene_refused hal hf]; exact ⟨rfl, rfl⟩
+
+/-- what `add_gene` does to the two dicts: nothing (refused: the name exists), or the assignment -/
+theorem addGene_cases (g : Genome ν) (x : Gene ν) :
+    ((addGene g x).1.genes = g.genes ∧ (addGene g x).1.expr = g.expr ∧ (findGene g.genes x.name).isSome = true) ∨
+    ((addGene g x).1.genes = putGene g.genes x ∧ (addGene g x).1.expr = putLevel g.expr x.name x.defExpr) := by
+  unfold addGene
+  cases hf : findGene g.genes x.name with
+  | none => right; exact ⟨rfl, rfl⟩
+  | some og =>
+    by_cases hal : g.allow = true
+    · right; simp [hal]
+    · left; simp [hal, refuseMut]
+
+theorem addGene_gate (g : Genome ν) (x : Gene ν) :
+    (addGene g x).1.allow = g.allow ∧ (addGene g x).1.cb = g.cb ∧ (addGene g x).1.rate = g.rate := by
+  unfold addGene
+  cases hf : findGene g.genes x.name with
+  | none => exact ⟨rfl, rfl, rfl⟩
+  | some og =>
+    by_cases hal : g.allow = true
+    · simp [hal]
+    · simp [hal, refuseMut]
+
+/-- `add_gene` logs nothing unless it refuses -/
+theorem addGene_log (g : Genome ν) (x : Gene ν) (h : (addGene g x).2 = true) : (addGene g x).1.log = g.log := by
+  unfold addGene at h ⊢
+  cases hf : findGene g.genes x.name with
+  | none => simp
+  | some og =>
+    simp only [hf] at h ⊢
+    by_cases hal : g.allow = true
+    · simp [hal]
+    · simp [hal] at h
 
 theorem setExpr_evolves (env : Env ν) {adds : Bool} (g : Genome ν) (n : Nat) (l : Level) :
     Evolves env adds g (setExpr g n l).1 := by
@@ -954,8 +1002,9 @@ theorem step_unauthorised {env : Env ν} {st : Store ν} {op : Op ν} {i : Nat} 
     cases op with
     | add i' x =>
       simp only [Op.mutator, Option.some.injEq] at ht; subst ht
-      rw [step_add hi, addGene_refused hal (hre x rfl)]
-      exact ⟨g, by simpa using getElem?_set_of_some (i := i') (a := g) hi, rfl⟩
+      rw [step_add hi]
+      exact ⟨_, by simpa using getElem?_set_of_some (i := i') (a := (addGene g x).1) hi,
+        (addGene_refused_genes hal (hre x rfl)).1⟩
     | mutate i' n v =>
       simp only [Op.mutator, Option.some.injEq] at ht; subst ht
       cases hm : mutate env st.calls g n v .user with
@@ -1006,7 +1055,9 @@ def WF (st : Store ν) : Prop := ∀ g ∈ st.genomes, WFG g
 theorem addGene_wf {g : Genome ν} (x : Gene ν) (h : WFG g) : WFG (addGene g x).1 := by
   unfold addGene
   split
-  · exact h
+  · split
+    · exact nodup_names_putGene _ _ h
+    · exact h
   · exact nodup_names_putGene _ _ h
 
 theorem setExpr_wf {g : Genome ν} (n : Nat) (l : Level) (h : WFG g) : WFG (setExpr g n l).1 := by
@@ -1070,8 +1121,7 @@ theorem addAll_fresh (xs : List (Gene ν)) : ∀ (g : Genome ν), ((g.genes ++ x
       exact this _ hm _ (List.mem_cons_self) rfl
     have hadd : (addGene g x).1 = { g with genes := g.genes ++ [x], expr := putLevel g.expr x.name x.defExpr } := by
       unfold addGene
-      have : (findGene g.genes x.name).isSome = false := by
-        rw [Option.isSome_eq_false_iff, Option.isNone_iff_eq_none]; exact findGene_none_iff.mpr hfresh
+      have : findGene g.genes x.name = none := findGene_none_iff.mpr hfresh
       simp [this, putGene_of_not_mem _ _ hfresh]
     unfold addAll
     rw [hadd]
@@ -1520,10 +1570,10 @@ theorem names_putGene (gs : List (Gene ν)) (x : Gene ν) :
   · rw [if_neg h, putGene_of_not_mem gs x h]; simp
 
 theorem addGene_keysEq {g : Genome ν} (x : Gene ν) (h : KeysEq g) : KeysEq (addGene g x).1 := by
-  unfold addGene
-  split
-  · exact h
+  rcases addGene_cases g x with ⟨h1, h2, -⟩ | ⟨h1, h2⟩
+  · unfold KeysEq at h ⊢; rw [h1, h2]; exact h
   · unfold KeysEq at h ⊢
+    rw [h1, h2]
     simp only [keys_putLevel, names_putGene, h]
 
 theorem setExpr_keysEq {g : Genome ν} (n : Nat) (l : Level) (h : KeysEq g) : KeysEq (setExpr g n l).1 := by
@@ -1618,19 +1668,16 @@ theorem childBase_keysEq {p : Genome ν} (inh : Bool) (hk : KeysEq p) : KeysEq (
           apply ih
           rcases h with h | h
           · left
-            unfold addGene; split
-            · exact h
-            · simp only [names_putGene]; split
+            rcases addGene_cases g x with ⟨h1, -, -⟩ | ⟨h1, -⟩
+            · rw [h1]; exact h
+            · rw [h1]; simp only [names_putGene]; split
               · exact h
               · exact List.mem_append_left _ h
           · rcases List.mem_cons.mp h with h | h
             · left
-              unfold addGene; split
-              · rename_i hc
-                have : (findGene g.genes x.name).isSome = true := by
-                  simp only [Bool.and_eq_true] at hc; exact hc.1
-                rw [h]; exact findGene_isSome_iff.mp this
-              · simp only [names_putGene]; split
+              rcases addGene_cases g x with ⟨h1, -, this⟩ | ⟨h1, -⟩
+              · rw [h1, h]; exact findGene_isSome_iff.mp this
+              · rw [h1]; simp only [names_putGene]; split
                 · rename_i hm; rw [h]; exact hm
                 · rw [h]; simp
             · right; exact h
@@ -1764,8 +1811,8 @@ theorem addAll_gate (xs : List (Gene ν)) : ∀ g : Genome ν,
   | cons x rest ih =>
     intro g
     obtain ⟨h1, h2, h3⟩ := ih (addGene g x).1
-    have e : (addGene g x).1.allow = g.allow ∧ (addGene g x).1.cb = g.cb ∧ (addGene g x).1.rate = g.rate := by
-      unfold addGene; split <;> exact ⟨rfl, rfl, rfl⟩
+    have e : (addGene g x).1.allow = g.allow ∧ (addGene g x).1.cb = g.cb ∧ (addGene g x).1.rate = g.rate :=
+      addGene_gate g x
     exact ⟨h1.trans e.1, h2.trans e.2.1, h3.trans e.2.2⟩
 
 /-! ### the scenarios behind the evaluated gate table (Operon/Gen/GenomeTables.lean)
